@@ -238,4 +238,173 @@ theorem pnode_setitem_lost (n : PNode) (k : String) (x : Int) (r : PNode × Unit
     | none => simp [h1, h2, Py.finish, Py.bind] at h
     | some g' => simp [h1, h2, Py.finish, Py.bind] at h; rw [← h]
 
+
+/-! ## slice keys -/
+
+/-- the positions Python's slice `s` designates in a sequence of length `n`, in order: `range(*s.indices(n))` (`none` = ValueError, step 0) -/
+def slicePositions (s : Py.Slice) (n : Int) : Option (List Int) :=
+  (Py.sliceIndices s n).bind fun t => Py.range3 t.1 t.2.1 t.2.2
+
+theorem path_slice_loop (P : Path) : ∀ (xs : List Int) (v : path_getitem_slice.V), v.self = P →
+    ∃ v', Py.forEach path_getitem_slice.for1 xs v = .next v' ∧ v'.self = P ∧ v'.c0_ = v.c0_ ++ xs.map (fun i => ⟨P, i, P.names⟩) := by
+  intro xs
+  induction xs with
+  | nil => intro v h; exact ⟨v, rfl, h, by simp⟩
+  | cons x xs ih =>
+    intro v h
+    subst h
+    obtain ⟨v', h1, h2, h3⟩ := ih { v with i := x, c0_ := v.c0_ ++ [⟨v.self, x, v.self.names⟩] } rfl
+    refine ⟨v', ?_, h2, ?_⟩
+    · simp only [Py.forEach, path_getitem_slice.for1, path_node_eq, Py.bind]
+      exact h1
+    · simp [h3]
+
+/-- **`path[a:b:c]`** = the node handles at the positions Python's slice designates, in order (ValueError for a zero step) -/
+theorem path_getitem_slice_eq (P : Path) (g : List Int) (h : path_get_ndata P P.names.id = some g) (s : Py.Slice) :
+    path_getitem_slice P s = (slicePositions s g.length).map fun l => l.map fun i => (⟨P, i, P.names⟩ : PNode) := by
+  simp only [path_getitem_slice, path_getitem_slice.body, Py.seq, Py.skip, path_len_eq P g h, Py.bind, slicePositions]
+  cases h1 : Py.sliceIndices s g.length with
+  | none => simp [Py.bindS, Py.finish]
+  | some t =>
+    cases h2 : Py.range3 t.1 t.2.1 t.2.2 with
+    | none => simp [Py.bindS, Py.finish, h2]
+    | some l =>
+      obtain ⟨v', e1, _, e3⟩ := path_slice_loop P l ⟨P, s, (default : path_getitem_slice.V).i, []⟩ rfl
+      simp [Py.bindS, Py.finish, h2, e1, e3]
+
+theorem tree_slice_loop (T : DictSWC) : ∀ (xs : List Int) (v : tree_getitem_slice.V), v.self = T →
+    ∃ v', Py.forEach tree_getitem_slice.for1 xs v = .next v' ∧ v'.self = T ∧ v'.c0_ = v.c0_ ++ xs.map (fun i => ⟨T, i, T.names⟩) := by
+  intro xs
+  induction xs with
+  | nil => intro v h; exact ⟨v, rfl, h, by simp⟩
+  | cons x xs ih =>
+    intro v h
+    subst h
+    obtain ⟨v', h1, h2, h3⟩ := ih { v with i := x, c0_ := v.c0_ ++ [⟨v.self, x, v.self.names⟩] } rfl
+    refine ⟨v', ?_, h2, ?_⟩
+    · simp only [Py.forEach, tree_getitem_slice.for1, tree_node_eq, Py.bind]
+      exact h1
+    · simp [h3]
+
+/-- **`tree[a:b:c]`** (the same text as `Path.__getitem__`) -/
+theorem tree_getitem_slice_eq (T : DictSWC) (idc : List Int) (h : Py.Dict.get? T.ndata T.names.id = some idc) (s : Py.Slice) :
+    tree_getitem_slice T s = (slicePositions s idc.length).map fun l => l.map fun i => (⟨T, i, T.names⟩ : TNode) := by
+  simp only [tree_getitem_slice, tree_getitem_slice.body, Py.seq, Py.skip, swc_len_eq T idc h, Py.bind, slicePositions]
+  cases h1 : Py.sliceIndices s idc.length with
+  | none => simp [Py.bindS, Py.finish]
+  | some t =>
+    cases h2 : Py.range3 t.1 t.2.1 t.2.2 with
+    | none => simp [Py.bindS, Py.finish, h2]
+    | some l =>
+      obtain ⟨v', e1, _, e3⟩ := tree_slice_loop T l ⟨T, s, (default : tree_getitem_slice.V).i, []⟩ rfl
+      simp [Py.bindS, Py.finish, h2, e1, e3]
+
+
+/-! ## compartments -/
+
+theorem bcomp_init_eq (P : Path) (a b : Int) : bcomp_init default P a b = some (⟨P, [a, b], P.names⟩, ()) := by
+  simp [bcomp_init, bcomp_init.body, ppath_init, ppath_init.body, Py.seq, Py.finish, Py.bind]
+
+theorem tcomp_init_eq (T : DictSWC) (a b : Int) : tcomp_init default T a b = some (⟨T, [a, b], T.names⟩, ()) := by
+  simp [tcomp_init, tcomp_init.body, path_init, path_init.body, Py.seq, Py.finish, Py.bind]
+
+theorem branch_comp_loop (P : Path) : ∀ (xs : List Int) (v : branch_get_compartments.V), v.self = P →
+    ∃ v', Py.forEach branch_get_compartments.for1 xs v = .next v' ∧ v'.self = P ∧
+      v'.c0_ = v.c0_ ++ xs.map (fun i => ⟨P, [i - 1, i], P.names⟩) := by
+  intro xs
+  induction xs with
+  | nil => intro v h; exact ⟨v, rfl, h, by simp⟩
+  | cons x xs ih =>
+    intro v h
+    subst h
+    obtain ⟨v', h1, h2, h3⟩ := ih { v with i := x, c0_ := v.c0_ ++ [⟨v.self, [x - 1, x], v.self.names⟩] } rfl
+    refine ⟨v', ?_, h2, ?_⟩
+    · simp only [Py.forEach, branch_get_compartments.for1, bcomp_init_eq, Py.bind]
+      exact h1
+    · simp [h3]
+
+/-- `Branch.get_compartments()`: one compartment per position `i = 1 .. n-1`, over the BRANCH, with index array `[i - 1, i]` -/
+theorem branch_get_compartments_eq (P : Path) (g : List Int) (h : path_get_ndata P P.names.id = some g) :
+    branch_get_compartments P = some ((Py.range2 1 g.length).map fun i => (⟨P, [i - 1, i], P.names⟩ : PPath)) := by
+  obtain ⟨v', e1, _, e3⟩ := branch_comp_loop P (Py.range2 1 g.length) ⟨P, (default : branch_get_compartments.V).i, []⟩ rfl
+  simp [branch_get_compartments, branch_get_compartments.body, Py.seq, path_len_eq P g h, Py.bind, Py.bindS, Py.finish, e1, e3]
+
+theorem ppath_get_ndata_eq (P : Path) (ix : List Int) (nm : SWCNames) (key : String) :
+    ppath_get_ndata ⟨P, ix, nm⟩ key = (path_get_ndata P key).bind fun g => Py.take g ix := by
+  simp only [ppath_get_ndata, ppath_get_ndata.body]
+  cases h : path_get_ndata P key with
+  | none => simp [Py.finish, Py.bind]
+  | some g => cases h2 : Py.take g ix <;> simp [Py.finish, Py.bind, h2]
+
+/-- a compartment of a branch reports, for every column, the values of the branch's nodes `i - 1` and `i` -/
+theorem branch_compartment_read (P : Path) (key : String) (gk : List Int) (hk : path_get_ndata P key = some gk) (nm : SWCNames)
+    (i : Int) (hi : 1 ≤ i ∧ i.toNat < gk.length) :
+    ppath_get_ndata ⟨P, [i - 1, i], nm⟩ key = some [gk.getD (i - 1).toNat 0, gk.getD i.toNat 0] := by
+  rw [ppath_get_ndata_eq, hk]
+  exact take_gather gk [i - 1, i] (by intro j hj; simp at hj; rcases hj with rfl | rfl <;> omega)
+
+/-- the pairs (value at `i - 1`, value at `i`) for `i = 1 .. n-1` are the CONSECUTIVE pairs of the sequence -/
+theorem consecutive_pairs (g : List Int) :
+    (Py.range2 1 g.length).map (fun i => (g.getD (i - 1).toNat 0, g.getD i.toNat 0)) = g.zip (g.drop 1) := by
+  apply List.ext_getElem
+  · simp [Py.range2] <;> omega
+  · intro k h1 h2
+    simp [Py.range2] at h1 h2 ⊢
+    have e1 : (1 + (k : Int) - 1).toNat = k := by omega
+    have e2 : (1 + (k : Int)).toNat = k + 1 := by omega
+    have e3 : 1 + k = k + 1 := by omega
+    have hk : k < g.length := by omega
+    have hk1 : k + 1 < g.length := by omega
+    simp [e1, e2, e3, List.getD, hk, hk1]
+
+/-! ### of a tree: the (parent, child) pairs of rows 1 .. n-1 -/
+
+theorem slicePositions_from1 (L : Nat) :
+    slicePositions ((some 1, none, none) : Py.Slice) L = some ((List.range (L - 1)).map fun (k : Nat) => (k : Int) + 1) := by
+  rcases Nat.lt_or_ge 1 L with h | h
+  · have e : ((L : Int) - 1 + 1 - 1) / 1 = ((L - 1 : Nat) : Int) := by simp; omega
+    simp [slicePositions, Py.sliceIndices, Py.sliceClamp, Py.range3, Py.rangeLen, h, e, show ¬ ((1 : Int) > L) by omega,
+      show (1 : Int) < L by omega, show ¬ ((L : Int) < 0) by omega]
+    intro a _; omega
+  · rcases Nat.eq_zero_or_pos L with h0 | h0
+    · subst h0; simp [slicePositions, Py.sliceIndices, Py.sliceClamp, Py.range3, Py.rangeLen]
+    · have : L = 1 := by omega
+      subst this; simp [slicePositions, Py.sliceIndices, Py.sliceClamp, Py.range3, Py.rangeLen]
+
+theorem tree_comp_loop (T : DictSWC) (pidc idc : List Int) (hp : Py.Dict.get? T.ndata T.names.pid = some pidc)
+    (hi : Py.Dict.get? T.ndata T.names.id = some idc) :
+    ∀ (is : List Int) (v : tree_get_compartments.V), v.self = T → InRange is pidc.length → InRange is idc.length →
+    ∃ v', Py.forEach tree_get_compartments.for1 (is.map fun i => (⟨T, i, T.names⟩ : TNode)) v = .next v' ∧ v'.self = T ∧
+      v'.c0_ = v.c0_ ++ is.map (fun i => ⟨T, [pidc.getD i.toNat 0, idc.getD i.toNat 0], T.names⟩) := by
+  intro is
+  induction is with
+  | nil => intro v h _ _; exact ⟨v, rfl, h, by simp⟩
+  | cons x xs ih =>
+    intro v h r1 r2
+    subst h
+    obtain ⟨v', h1, h2, h3⟩ := ih ⟨v.self, ⟨v.self, x, v.self.names⟩,
+        v.c0_ ++ [⟨v.self, [pidc.getD x.toNat 0, idc.getD x.toNat 0], v.self.names⟩]⟩ rfl
+      (fun j hj => r1 j (List.mem_cons_of_mem _ hj)) (fun j hj => r2 j (List.mem_cons_of_mem _ hj))
+    refine ⟨v', ?_, h2, ?_⟩
+    · simp only [List.map_cons, Py.forEach, tree_get_compartments.for1, tnode_getitem_eq, hp, hi, Option.bind_some,
+        idx_inrange pidc x (r1 x List.mem_cons_self), idx_inrange idc x (r2 x List.mem_cons_self), Py.bind, tcomp_init_eq]
+      exact h1
+    · simp [h3]
+
+/-- **`Tree.get_compartments()`**: for the rows `i = 1 .. n-1` of the tree, in order, the compartment over the TREE with index array
+`[pid[i], id[i]]` (the values of the two topology columns at row `i`: (parent, child)) -/
+theorem tree_get_compartments_eq (T : DictSWC) (pidc idc : List Int) (hp : Py.Dict.get? T.ndata T.names.pid = some pidc)
+    (hi : Py.Dict.get? T.ndata T.names.id = some idc) (hl : pidc.length = idc.length) :
+    tree_get_compartments T =
+      some ((List.range (idc.length - 1)).map fun (k : Nat) => (⟨T, [pidc.getD (k + 1) 0, idc.getD (k + 1) 0], T.names⟩ : Path)) := by
+  have hs := tree_getitem_slice_eq T idc hi (some 1, none, none)
+  rw [slicePositions_from1] at hs
+  have hr : InRange ((List.range (idc.length - 1)).map fun (k : Nat) => (k : Int) + 1) idc.length := by
+    intro j hj; simp at hj; obtain ⟨a, ha, rfl⟩ := hj; omega
+  obtain ⟨v', e1, _, e3⟩ := tree_comp_loop T pidc idc hp hi _ ⟨T, (default : tree_get_compartments.V).n, []⟩ rfl (hl ▸ hr) hr
+  simp only [Option.map_some] at hs
+  simp only [tree_get_compartments, tree_get_compartments.body, Py.seq, hs, Py.bind, Py.bindS, e1, Py.finish, Option.map_some, e3]
+  have e : ∀ a : Nat, ((a : Int) + 1).toNat = a + 1 := by intro a; omega
+  simp [e]
+
 end RefineViews
